@@ -181,8 +181,12 @@ def run_case_(ctx, case, ir, do_v=True):
         deriv = (-fint(c + 2 * hh * d) + 8 * fint(c + hh * d) - 8 * fint(c - hh * d) + fint(c - 2 * hh * d)) / (12 * hh)
         want = kT @ d
         sc = max(np.abs(want).max(), np.abs(deriv).max(), 1e-300)
-        if np.abs(deriv - want).max() > 1e-8 * sc:
-            k = int(np.abs(deriv - want).argmax())
+        # every field (u, v, w rows) on its own scale: in a thin panel the out-of-plane rows are orders of magnitude below the in-plane ones
+        scf = np.array([max(np.abs(want[a_::3]).max(), np.abs(deriv[a_::3]).max(), 1e-5 * sc) for a_ in range(3)])[np.arange(len(want)) % 3] \
+            if len(want) % 3 == 0 else np.full(len(want), sc)
+        if np.abs(deriv - want).max() > 1e-8 * sc or (np.abs(deriv - want) / scf).max() > 1e-7:
+            k = int((np.abs(deriv - want) / scf).argmax())
+            sc = scf[k]
             bad = ('kT.dc differs from the exact derivative of the cubic internal force along dc: rel %.3e at dof %d '
                    '(kT.dc %.6e, d fint %.6e)' % (np.abs(deriv - want).max() / sc, k, want[k], deriv[k]))
     if bad is None and not case.get('taper'):
